@@ -9,11 +9,11 @@ TRUST = ("Python/numpy semantics; the harness's own oracle code in /verif/mc; th
 
 CHECKS = {
     "C12": dict(engine="lp-metamorphic", design_ref="3/C12",
-        technique="every single perturbation from a fixed menu applied to every captured LP instance (first and last people-maximising round of each enumerated run), each solved by the real Optimizer.optimize_to_humans; metamorphic laws as oracle; the same menu on the full product of tiny instances built on the real Optimizer (industrial foods below and far above the human intake cap, biofuel charge below and above feed charge); each of the two meat inputs (total, running total from month m on / last entry) also raised alone",
+        technique="every single perturbation from a fixed menu applied to every captured LP instance (first and last people-maximising round of each enumerated run), each solved by the real Optimizer.optimize_to_humans; metamorphic laws as oracle; the same menu on the full product of tiny instances built on the real Optimizer (industrial foods below and far above the human intake cap, biofuel charge below and above feed charge); each of the two meat inputs (total, running total from month m on / last entry) also raised alone; boundary values of one food's waste (w/2, exactly 0) and the chain w -> w/2 -> 0",
         text="For each captured instance: every supply kind x month bucket +5 % of monthly need, each retail waste -5 points, feed/biofuel charge +1 % per bucket, common scale x0.5/x3: percent fed must not decrease / not increase / stay equal (1e-5 relative). Exact mathematical consequences of a correct formulation, checked on every enumerated instance rather than one sweep.",
         note=TRUST + "; an infeasible perturbed programme has no value and is counted, not judged"),
     "C14": dict(engine="histories", design_ref="3/C14",
-        technique="sequences(d): every ordered sequence (d<=2 quick, d<=3 thorough, repeats allowed) over a pool of 8 runs differing in every process-global the code touches (two of them the same country with numeric overrides), each history in one fresh process; every subset (size <=2 quick, all thorough) of 5 countries in ONE multi-country call sharing one option dictionary; differential oracle: bit-for-bit equality with the run alone / the single-country call; deviation histories: the base run of a country after the same country was run with each single-family option deviation (52), one fresh process each (incl. every column family of the country table halved through the custom-parameter mechanism); the pool includes a run on the rare abandoned-round-2 path and the same country under a feed-charging variant",
+        technique="sequences(d): every ordered sequence (d<=2 quick, d<=3 thorough, repeats allowed) over a pool of 8 runs differing in every process-global the code touches (two of them the same country with numeric overrides), each history in one fresh process; every subset (size <=2 quick, all thorough) of 5 countries in ONE multi-country call sharing one option dictionary; differential oracle: bit-for-bit equality with the run alone / the single-country call; deviation histories: the base run of a country after the same country was run with each single-family option deviation (52), one fresh process each (incl. every column family of the country table halved through the custom-parameter mechanism); the pool includes a run on the rare abandoned-round-2 path and the same country under a feed-charging variant; histories in which one runner object serves every run (every ordered pair quick, pairs and triples thorough), digest incl. returned aggregate and reported countries",
         text="Result digest (headline, every monthly series, herd dictionaries) of each run at the end of every history equals the digest of the same run alone in a fresh process, also repeated and under other PYTHONHASHSEED values; caller's option dictionaries unmodified; process-global settings fingerprinted after each run.",
         note=TRUST + "; results are bit-for-bit reproducible on the unchanged tree (measured)"),
     "C15": dict(engine="aggregate", design_ref="3/C15",
@@ -45,7 +45,7 @@ CHECKS = {
         text="Meat and milk energy handed to each round's optimiser are recomputed from the herd run of that round (slaughter counts x class yields x waste; milking herd x yield x wastes); final-round feed charge >= feed the final herd run ate; grass used <= grass given; the no-feed round ran its herds on no feed.",
         note=TRUST + "; per-kg energy and default carcass weights are the documented constants of MeatAndDairy"),
     "C16": dict(engine="pipeline", design_ref="3/C16",
-        technique="the enumerated grid itself (presets x all countries x single deviations): completion, assertions, banners, finite non-negative headline; the quick plan appends fixed representatives of rare controller paths found by the thorough grid (mc/rare_paths.json)",
+        technique="the enumerated grid itself (presets x all countries x single deviations): completion, assertions, banners, finite non-negative headline; the quick plan appends fixed representatives of rare controller paths found by the thorough grid (mc/rare_paths.json); plus every single deviation of the baseline-family presets on 4 (thorough 9) countries and the world, run outside the shared exploration",
         text="Every run of the enumerated grid must complete with all built-in validation passing and no validation banner printed; failures are genuine by construction and are listed explicitly in known_findings.json.",
         note=TRUST),
     "C18": dict(
@@ -81,7 +81,7 @@ CHECKS = {
         note=TRUST + "; 30-day month and 4e6 kcal per dry caloric ton are documented constants"),
     "C11": dict(
         engine="food-ops", design_ref="3/C11",
-        technique="breadth-first explicit-state exploration of operation sequences on real Food objects (exact canonical state, deduplicated) with a reference value type run in lock-step; full product of constructor argument kinds; full product of predicate operands under the four inclusion-flag settings; seed families that share the calorie label but differ in fat/protein label; constructor labels in all 8 suffix mixtures; numpy-integer and mixed-target operations in the alphabet; every read-only query and ordered pair of label getters on every seed, every comparison on every mixed (single value, series) pair, replace_if_list_with_zeros_is_zero over every triple",
+        technique="breadth-first explicit-state exploration of operation sequences on real Food objects (exact canonical state, deduplicated) with a reference value type run in lock-step; full product of constructor argument kinds; full product of predicate operands under the four inclusion-flag settings; seed families that share the calorie label but differ in fat/protein label; constructor labels in all 8 suffix mixtures; numpy-integer and mixed-target operations in the alphabet; every read-only query and ordered pair of label getters on every seed, every comparison on every mixed (single value, series) pair, replace_if_list_with_zeros_is_zero over every triple; four histories of nutrition settings on the shared conversions object with every conversion re-judged after every assignment",
         text="All operation sequences up to depth 1 (all seeds) / 2 (8 seeds) quick, depth 2 complete + depth-3 unary chains thorough, over 22 unary and 5 binary operations with every reached state as partner; after every step labels, label list, form-vs-shape, values, operand immutability and must-refuse are checked against the reference. 16 predicates are compared between single values and one-month series for every operand pair over a 3/4-value menu under all four fat/protein settings.",
         note=TRUST + "; label conventions are those of the Food class docstring; operations the docstrings declare unsupported may refuse"),
     "C13": dict(
